@@ -68,6 +68,26 @@ def dropItems (cols : List Name) (ns : List Name) : List (Name × Expr) :=
 def fillItems (cols : List Name) (v : Val) (sub : List Name) : List (Name × Expr) :=
   cols.map (fun c => if c ∈ sub then (c, Expr.ite (.isNull (.col c)) (.lit v) (.col c)) else (c, Expr.col c))
 
+/-- `replace(old, new, subset)`: CASE WHEN c = old THEN new ELSE c END for c in subset -/
+def replaceItems (cols : List Name) (old new : Val) (sub : List Name) : List (Name × Expr) :=
+  cols.map (fun c => if c ∈ sub then (c, Expr.ite (.bin .eq (.col c) (.lit old)) (.lit new) (.col c)) else (c, Expr.col c))
+
+/-- `toDF(*names)`: the current select expressions, re-aliased positionally -/
+def toDFItems (sel : List (Name × Expr)) (names : List Name) : List (Name × Expr) :=
+  List.zipWith (fun it n => (n, it.2)) sel names
+
+/-- `dropna`: the helper column counting NULLs among `sub` -/
+def numNullsExpr : List Name → Expr
+  | [] => .lit (.int 0)
+  | [c] => .ite (.isNull (.col c)) (.lit (.int 1)) (.lit (.int 0))
+  | c :: cs => .bin .add (.ite (.isNull (.col c)) (.lit (.int 1)) (.lit (.int 0))) (numNullsExpr cs)
+
+/-- `minimum_num_nulls` of dropna(how, thresh, subset) -/
+def dropnaMin (howAll : Bool) (thresh : Option Nat) (n : Nat) : Int :=
+  match thresh with
+  | some t => (n : Int) - (t : Int) + 1
+  | none => if howAll then n else 1
+
 /-! ### method bodies (what runs inside the wrapper) -/
 
 def bodyWhere (p : Expr) (d : DF) : DF :=
@@ -97,6 +117,9 @@ inductive Step
   | orderBy (keys : List OrdKey)
   | limit (n : Nat)
   | fillna (v : Val) (sub : List Name)
+  | replace (old new : Val) (sub : List Name)
+  | toDF (names : List Name)
+  | dropna (howAll : Bool) (thresh : Option Nat) (sub : List Name)
   deriving Repr
 
 /-- one public method call, composed the way dataframe.py composes it -/
@@ -120,6 +143,19 @@ def DF.apply (d : DF) : Step → DF
       wrapper tag_fillna
         (fun d => wrapper tag_select (fun d' => bodySelect (fillItems d.outNames v sub) d') d) d
 
+  | .replace old new sub =>
+      wrapper tag_replace
+        (fun d => wrapper tag_select (fun d' => bodySelect (replaceItems d.outNames old new sub) d') d) d
+  | .toDF names => wrapper tag_toDF (fun d => { d with blk := { d.blk with sel := toDFItems d.blk.sel names } }) d
+  | .dropna howAll thresh sub =>
+      -- dropna: new_df.select(num_nulls, append=True).where(num_nulls < k).select(*all_columns), each through its own wrapper
+      wrapper tag_dropna
+        (fun d =>
+          let all := d.outNames
+          let d1 := wrapper tag_select (bodySelectNoAppend true [("num_nulls", numNullsExpr sub)]) d
+          let d2 := wrapper tag_where (bodyWhere (.bin .lt (.col "num_nulls") (.lit (.int (dropnaMin howAll thresh sub.length))))) d1
+          wrapper tag_select (bodySelect (identSel all)) d2) d
+
 def DF.run (d : DF) (steps : List Step) : DF := steps.foldl DF.apply d
 
 /-! ### PySpark's sequential meaning of the same steps (specification) -/
@@ -133,6 +169,11 @@ def specStep (T : Table) : Step → Table
   | .orderBy keys => T.sort keys
   | .limit n => T.limit n
   | .fillna v sub => T.project (fillItems T.cols v sub)
+  | .replace old new sub => T.project (replaceItems T.cols old new sub)
+  | .toDF names => T.project (List.zipWith (fun c n => (n, Expr.col c)) T.cols names)
+  | .dropna howAll thresh sub =>
+      { T with rows := T.rows.filter (fun r =>
+          decide (((sub.filter (fun c => lookup T.cols r c = .null)).length : Int) < dropnaMin howAll thresh sub.length)) }
 
 def specRun (T : Table) (steps : List Step) : Table := steps.foldl specStep T
 
